@@ -213,3 +213,10 @@ func Finish(sv *tnet.Srv, cl *tnet.Cli, all []tnet.Dgram) Result {
 	_ = io.EOF
 	return r
 }
+
+// BuildClientKEM is BuildClient with the KEM key passed as an opaque value (as kept by callers
+// that do not import the keys package).
+func BuildClientKEM(sc Scenario, addr int, kemPub any) *tnet.Cli {
+	k, _ := kemPub.(*keys.KEMPublicKey)
+	return BuildClient(sc, addr, k)
+}
